@@ -64,6 +64,13 @@ type Manager struct {
 	handshaker *Handshaker
 	logger     *slog.Logger
 
+	// lifecycleMu serialises changes of the registered connection of a peer
+	// with the disconnect notification of its previous connection: the cleanup
+	// that OnPeerDisconnect performs is keyed by peer ID, so it must be complete
+	// before a newer connection of the same peer can be registered and start
+	// delivering frames. Lock order: lifecycleMu before mu.
+	lifecycleMu sync.Mutex
+
 	mu          sync.RWMutex
 	peers       map[identity.AgentID]*Connection
 	peerInfos   map[string]*PeerInfo // Address -> PeerInfo
@@ -184,6 +191,7 @@ func (m *Manager) Accept(ctx context.Context, peerConn transport.PeerConn) (*Con
 
 // registerConnection adds a connection to the manager.
 func (m *Manager) registerConnection(conn *Connection) {
+	m.lifecycleMu.Lock()
 	m.mu.Lock()
 	// Reject new registrations after the manager has been canceled (Close
 	// runs cancel() then waits on wg). Calling wg.Add concurrently with
@@ -192,6 +200,7 @@ func (m *Manager) registerConnection(conn *Connection) {
 	select {
 	case <-m.ctx.Done():
 		m.mu.Unlock()
+		m.lifecycleMu.Unlock()
 		conn.Close()
 		return
 	default:
@@ -202,6 +211,7 @@ func (m *Manager) registerConnection(conn *Connection) {
 		// Keep the existing connection, close the new one
 		// This prevents connection churn when both sides connect simultaneously
 		m.mu.Unlock()
+		m.lifecycleMu.Unlock()
 		conn.Close()
 		return
 	}
@@ -210,6 +220,7 @@ func (m *Manager) registerConnection(conn *Connection) {
 	// calling wg.Wait below) cannot race the Add with the Wait.
 	m.wg.Add(2)
 	m.mu.Unlock()
+	m.lifecycleMu.Unlock()
 
 	go m.readLoop(conn)
 	go m.keepaliveLoop(conn)
@@ -221,12 +232,25 @@ func (m *Manager) registerConnection(conn *Connection) {
 }
 
 // handleDisconnect is called when a connection is closed.
+//
+// Both readLoop and keepaliveLoop may report the same connection; only the
+// first report is acted upon. The disconnect callback cleans up by peer ID, so
+// it is skipped when a newer connection of the same peer is registered, and it
+// runs under lifecycleMu so that no newer connection can be registered (and
+// learn routes or carry streams) before the cleanup has finished.
 func (m *Manager) handleDisconnect(conn *Connection, err error) {
+	if !conn.disconnectHandled.CompareAndSwap(false, true) {
+		return
+	}
+
+	m.lifecycleMu.Lock()
 	m.mu.Lock()
 	// Remove from peers map if this is still the active connection
-	if existing, ok := m.peers[conn.RemoteID]; ok && existing == conn {
+	existing, ok := m.peers[conn.RemoteID]
+	if ok && existing == conn {
 		delete(m.peers, conn.RemoteID)
 	}
+	superseded := ok && existing != conn
 
 	// Find the peer info using the config address (original dial address).
 	// This is necessary because RemoteAddr() returns the resolved IP,
@@ -239,9 +263,10 @@ func (m *Manager) handleDisconnect(conn *Connection, err error) {
 	m.mu.Unlock()
 
 	// Notify callback
-	if m.cfg.OnPeerDisconnect != nil {
+	if m.cfg.OnPeerDisconnect != nil && !superseded {
 		m.cfg.OnPeerDisconnect(conn, err)
 	}
+	m.lifecycleMu.Unlock()
 
 	// Schedule reconnect if persistent, using the config address
 	if peerInfo != nil && peerInfo.Persistent && configAddr != "" {
